@@ -11,6 +11,7 @@
 -/
 import GraphiqModel.Proofs.SolverCompleteAbsorb
 import GraphiqModel.Proofs.SolverCompleteLitX
+import GraphiqModel.Proofs.SolverCompleteCount
 namespace Graphiq.Solver
 open Graphiq Graphiq.Cliff PRow STab
 
@@ -251,7 +252,8 @@ theorem absorb_hyps (np p : Nat) (t : STab)
     and the invariant holds for the next round -/
 theorem absorb_round (I : Nat → Prop) (np ne p : Nat) (hp : p < np) (hI : ¬ I p) (s : St) (h : RInv I np ne (p + 1) s)
     (piv : Nat → Nat) (he : Echelon s.t piv)
-    (hrow : ∃ i, i < s.t.n ∧ piv i = p) : ∃ s', addPhotonAbsorption s p = .ok s' ∧ RInv I np ne p s' := by
+    (hrow : ∃ i, i < s.t.n ∧ piv i = p) :
+    ∃ s', addPhotonAbsorption s p = .ok s' ∧ RInv I np ne p s' ∧ Reach (fun c => c = p ∨ np ≤ c) s.t s'.t ∧ KeepsM s s' := by
   have hn : s.t.n = s.np + s.ne := by rw [h.n_eq, h.np_eq, h.ne_eq]
   obtain ⟨h1, h2⟩ := absorb_hyps np p s.t h.lit (h.notProd p (by omega) hI)
   obtain ⟨i, hi, hpi⟩ := hrow
@@ -262,7 +264,8 @@ theorem absorb_round (I : Nat → Prop) (np ne p : Nat) (hp : p < np) (hI : ¬ I
     (by rw [h.np_eq]; exact h1) (by rw [h.np_eq]; exact h2)
   rw [h.np_eq] at hr
   obtain ⟨r1, r2, r3, r4, r5, r5x, r6⟩ := h.reach hp s'.t hr
-  refine ⟨s', hs', ⟨by omega, hnp'.trans h.np_eq, hne'.trans h.ne_eq, r1, r2, r3, ?_, r5, r5x, ?_⟩⟩
+  refine ⟨s', hs', ⟨by omega, hnp'.trans h.np_eq, hne'.trans h.ne_eq, r1, r2, r3, ?_, r5, r5x, ?_⟩, hr,
+    addPhotonAbsorption_mcr s s' p hs'⟩
   · intro q hq1 hq2
     by_cases hqp : q = p
     · rw [hqp]; exact hlit
@@ -324,14 +327,50 @@ theorem photonLoop_cons (s : St) (j : Nat) (rest : List Nat) :
       · simp only [if_neg hc]
         cases addPhotonAbsorption { s with t := t1 } (j - 1) <;> rfl
 
-/-- **every round of the main loop returns and re-establishes the invariant** -/
+/-- the height function drops at photon `p` (`h(p) < h(p-1)`, `h(-1) = 0`), read off the cut ranks — a property of the group only -/
+def dropAt (t : STab) (p : Nat) : Prop :=
+  (t.cutRank p : Int) - ((p : Int) + 1) < (if p = 0 then 0 else (t.cutRank (p - 1) : Int) - (p : Int))
+
+/-- the test `height_list[j] < height_list[j - 1]` of `solve` (with `j = p + 1`) is `dropAt` -/
+theorem cond_iff_dropAt (t : STab) (hl : List Int) (hh : t.heightFuncList = .ok hl) (p : Nat) (hp : p < t.n) :
+    ((0 :: hl).getD (p + 1) 0 < (0 :: hl).getD p 0) ↔ dropAt t p := by
+  have e1 : (0 :: hl).getD (p + 1) 0 = hl.getD p 0 := by simp [List.getD]
+  rw [e1, height_eq_cutRank t hl hh p hp]
+  unfold dropAt
+  cases p with
+  | zero =>
+    have e0 : (0 :: hl).getD 0 0 = 0 := rfl
+    rw [e0]; simp
+  | succ p' =>
+    have e2 : (0 :: hl).getD (p' + 1) 0 = hl.getD p' 0 := by simp [List.getD]
+    rw [e2, height_eq_cutRank t hl hh p' (by omega)]
+    simp only [Nat.add_sub_cancel, Nat.succ_ne_zero, if_false]
+    push_cast
+    constructor <;> intro h <;> omega
+
+theorem dropAt_congr (t t' : STab) (p : Nat) (h1 : t'.cutRank p = t.cutRank p) (h2 : p ≠ 0 → t'.cutRank (p - 1) = t.cutRank (p - 1)) :
+    dropAt t' p ↔ dropAt t p := by
+  unfold dropAt
+  rw [h1]
+  by_cases hp : p = 0
+  · simp [hp]
+  · rw [h2 hp]
+
+/-- **every round of the main loop returns and re-establishes the invariant**; it touches only the photon and the emitters, and records
+    one measure-and-reset exactly when the height function drops at the photon -/
 theorem round_ok (I : Nat → Prop) (np ne p : Nat) (hp : p < np) (hI : ¬ I p) (s : St) (h : RInv I np ne (p + 1) s) :
-    ∃ s', photonRound s (p + 1) = .ok s' ∧ RInv I np ne p s' := by
+    ∃ s', photonRound s (p + 1) = .ok s' ∧ RInv I np ne p s' ∧ Reach (fun c => c = p ∨ np ≤ c) s.t s'.t ∧
+      (dropAt s.t p → mcrCount s'.circ = mcrCount s.circ + 1) ∧ (¬ dropAt s.t p → mcrCount s'.circ = mcrCount s.circ) := by
   -- echelon gauge
   obtain ⟨t1, brs, piv, hr, he⟩ := rref_ok_of_indep s.t h.indep
   have i1 := h.cops t1 (rref_cops s.t t1 brs hr)
   obtain ⟨hl, hh, _⟩ := heightFuncList_ok_of_indep t1 i1.indep
   have hn1 : t1.n = np + ne := i1.n_eq
+  have o1 := rref_cops s.t t1 brs hr
+  have hdrop : ((0 :: hl).getD (p + 1) 0 < (0 :: hl).getD p 0) ↔ dropAt s.t p := by
+    rw [cond_iff_dropAt t1 hl hh p (by omega)]
+    have se := (o1.spanEq h.good).1
+    exact dropAt_congr s.t t1 p (cutRank_spanEq _ _ se p) (fun _ => cutRank_spanEq _ _ se (p - 1))
   unfold photonRound
   rw [hr]; simp only
   rw [hh]; simp only [Nat.add_sub_cancel]
@@ -404,11 +443,21 @@ theorem round_ok (I : Nat → Prop) (np ne p : Nat) (hp : p < np) (hI : ¬ I p) 
     rw [← ht2] at ha
     have ha2 : t2.Spn a := (o2.spanEq i2.good).1.sub a ha
     have hrow := echelon_row_at t2 piv2 he2 p (by rw [i3.n_eq]; omega) a ha2 halow hant
-    exact absorb_round I np ne p hp hI _ i3 piv2 he2 hrow
+    obtain ⟨s', a1, a2, a3, a4⟩ := absorb_round I np ne p hp hI _ i3 piv2 he2 hrow
+    have hm2 := timeReversedMeasurement_mcr _ s2 p htrm
+    refine ⟨s', a1, a2, ?_, ?_, ?_⟩
+    · exact (((Reach.of_cops o1).trans hreach).trans (Reach.of_cops o2)).trans a3
+    · intro _
+      have : mcrCount s'.circ = mcrCount s2.circ := a4
+      rw [this, hm2]
+    · intro hnd; exact absurd (hdrop.1 hcond) hnd
   · rw [if_neg hcond]
     simp only
     have hrow := row_at_exists t1 piv he hl hh p (by omega) hcond
-    exact absorb_round I np ne p hp hI _ i1 piv he hrow
+    obtain ⟨s', a1, a2, a3, a4⟩ := absorb_round I np ne p hp hI _ i1 piv he hrow
+    refine ⟨s', a1, a2, (Reach.of_cops o1).trans a3, ?_, ?_⟩
+    · intro hd; exact absurd (hdrop.2 hd) hcond
+    · intro _; exact a4
 
 /-- **the main loop returns** (sub-goals 1–3): from the invariant with `m` photons left, none of them isolated, `photonLoop` over
     `j = m, …, 1` returns a state in which every photon is absorbed -/
@@ -418,12 +467,43 @@ theorem photonLoop_ok (I : Nat → Prop) (np ne : Nat) (m : Nat) (hI : ∀ p, p 
   | zero => exact ⟨s, rfl, h⟩
   | succ p ih =>
     have hp : p < np := h.m_le
-    obtain ⟨s1, h1, i1⟩ := round_ok I np ne p hp (hI p (by omega)) s h
+    obtain ⟨s1, h1, i1, _⟩ := round_ok I np ne p hp (hI p (by omega)) s h
     obtain ⟨s', h2, i2⟩ := ih (fun p' hp' => hI p' (by omega)) s1 i1
     refine ⟨s', ?_, i2⟩
     rw [List.range_succ, List.reverse_append, List.reverse_singleton, List.singleton_append, List.map_cons,
       photonLoop_cons, h1]
     exact h2
+
+/-- **resource count of the main loop**: it records one measure-and-reset for each photon at which the height function of the tableau
+    the loop started from drops (`d` is any Boolean reading of `dropAt t0`).  The cuts left of the current photon are never touched, so
+    the test of round `p` sees the cut ranks of `t0`. -/
+theorem photonLoop_count (I : Nat → Prop) (np ne : Nat) (t0 : STab) (hg0 : t0.Good) (m : Nat) (hI : ∀ p, p < m → ¬ I p) (s : St)
+    (h : RInv I np ne m s) (hr : Reach (fun c => m ≤ c) t0 s.t) (d : Nat → Bool) (hd : ∀ p, p < m → (d p = true ↔ dropAt t0 p)) :
+    ∃ s', photonLoop s ((List.range m).reverse.map (· + 1)) = .ok s' ∧ RInv I np ne 0 s' ∧
+      mcrCount s'.circ = mcrCount s.circ + cnt m d := by
+  induction m generalizing s with
+  | zero => exact ⟨s, rfl, h, by simp [cnt]⟩
+  | succ p ih =>
+    have hp : p < np := h.m_le
+    obtain ⟨s1, h1, i1, r1, c1, c2⟩ := round_ok I np ne p hp (hI p (by omega)) s h
+    have hdrop : dropAt s.t p ↔ dropAt t0 p :=
+      dropAt_congr t0 s.t p (hr.cutRank_eq hg0 p (fun c hc => by omega))
+        (fun hp0 => hr.cutRank_eq hg0 (p - 1) (fun c hc => by omega))
+    have hr1 : Reach (fun c => p ≤ c) t0 s1.t :=
+      (hr.mono (fun c hc => by omega)).trans (r1.mono (fun c hc => by rcases hc with e | e <;> omega))
+    obtain ⟨s', h2, i2, c3⟩ := ih (fun p' hp' => hI p' (by omega)) s1 i1 hr1 (fun p' hp' => hd p' (by omega))
+    refine ⟨s', ?_, i2, ?_⟩
+    · rw [List.range_succ, List.reverse_append, List.reverse_singleton, List.singleton_append, List.map_cons,
+        photonLoop_cons, h1]
+      exact h2
+    · rw [c3, cnt_succ]
+      cases hdp : d p
+      · have : ¬ dropAt s.t p := fun hh => by
+          have := (hd p (by omega)).2 (hdrop.1 hh)
+          rw [hdp] at this; cases this
+        rw [c2 this]; simp
+      · have : dropAt s.t p := hdrop.2 ((hd p (by omega)).1 hdp)
+        rw [c1 this]; simp; omega
 
 /-! ### an isolated photon: the round raises IndexError (finding D3 as a theorem about the model) -/
 
@@ -555,7 +635,7 @@ theorem photonLoop_err (I : Nat → Prop) (np ne : Nat) (m : Nat) (hex : ∃ p, 
     rw [List.range_succ, List.reverse_append, List.reverse_singleton, List.singleton_append, List.map_cons, photonLoop_cons]
     by_cases hI : I p
     · rw [round_err I np ne p hp hI s h]
-    · obtain ⟨s1, h1, i1⟩ := round_ok I np ne p hp hI s h
+    · obtain ⟨s1, h1, i1, _⟩ := round_ok I np ne p hp hI s h
       rw [h1]
       simp only
       apply ih _ s1 i1
